@@ -101,6 +101,9 @@ func Word() *rapid.Generator[string] {
 	})
 }
 
+// MagicPrefixes: letter-only signatures of binary formats from content-sniffing tables.
+var MagicPrefixes = []string{"BM", "OTTO", "wOFF", "wOFf", "ttcf", "MThd", "OggS", "RIFFabcdWAVE", "RIFFabcdWEBPVP", "RIFFabcdAVI", "FORMabcdAIFF", "GIF", "PK", "Rar", "ID", "fLaC", "FWS", "CWS", "MZ", "II", "MM"}
+
 // WordFileGen draws an upstream file.
 func WordFileGen() *rapid.Generator[WordFile] {
 	return rapid.Custom(func(t *rapid.T) WordFile {
@@ -140,6 +143,46 @@ func WordFileGen() *rapid.Generator[WordFile] {
 			}
 		}
 		blank("blank-end", 4)
-		return WordFile{Lines: lines, FinalNewline: rapid.Bool().Draw(t, "final-newline")}
+		wf := WordFile{Lines: lines, FinalNewline: rapid.Bool().Draw(t, "final-newline")}
+		// the first word begins like a binary file format (what content sniffers key on)
+		if n > 0 && rapid.IntRange(0, 7).Draw(t, "magic-first-word") == 0 {
+			for i := range wf.Lines {
+				if wf.Lines[i] != "" {
+					wf.Lines[i] = rapid.SampledFrom(MagicPrefixes).Draw(t, "magic") + wf.Lines[i]
+					break
+				}
+			}
+		}
+		// total size exactly on, just below or just above a power-of-two limit (64 KiB, 1 MiB), or well
+		// above 1 MiB: rare (the files are large)
+		target := 0
+		switch k := rapid.IntRange(0, 199).Draw(t, "size-target"); {
+		case k == 0:
+			target = 1 << 20
+		case k == 1:
+			target = 1<<20 + 200000
+		case k <= 5:
+			target = 1 << 16
+		}
+		if target > 0 {
+			target += rapid.IntRange(-2, 2).Draw(t, "size-delta")
+			filler := Word().Draw(t, "filler")
+			if len(filler) > 40 {
+				filler = "filler"
+			}
+			size := len(wf.Content())
+			if !wf.FinalNewline && len(wf.Lines) > 0 {
+				size++ // the separator in front of the next line
+			}
+			for i := 0; size < target-200; i++ {
+				line := filler + string(rune('a'+i%26)) + string(rune(0x4e00+i%20000))
+				wf.Lines = append(wf.Lines, line)
+				size += len(line) + 1
+			}
+			if d := target - len(wf.Content()); d > 1 {
+				wf.Lines = append(wf.Lines, strings.Repeat("z", d-1))
+			}
+		}
+		return wf
 	})
 }
